@@ -106,6 +106,13 @@ CLAIMS = {
    note=TB + " Not decided here: that source types land in the right category (C05) and that the Direction token reaches the AST (wiring rule, C02/C04).",
    design="DESIGN.md section 4, C07"),
 }
+# rules shared since session 4 (DESIGN.md 10.6, round 7)
+PB = {
+ "*": "; plumbing rule PB: path enumeration of Parser::add_content / remove_content / validate by abstract interpretation of their MIR (C12's rules H1, H2, H3, H5, H7 re-evaluated under this property and re-keyed to it)",
+ "C12": "",
+ "C14": "; tree-mutation inventory over MIR (R8: stores into tree nodes and `&mut` accesses to owned parts of the tree in everything reachable from validation::validate, result of the per-file closure carries the stored tree); plumbing rule PB (C12's H1, H2, H3, H5, H7 re-evaluated)",
+ "C02": "; tree-mutation inventory over MIR (C14 R8 re-evaluated: validation returns the tree the actions built, only Type.kind / Method.oneway written); plumbing rule PB (C12's H1, H2, H3, H5, H7 re-evaluated)",
+}
 checks = []
 na = []
 for p in props:
@@ -123,7 +130,7 @@ for p in props:
         "engine": "static-rules",
         "level_claimed": {"category": "other", "text": c["text"], "design_ref": c["design"]},
         "level_note": c["note"],
-        "technique": c["technique"],
+        "technique": c["technique"] + PB.get(pid, PB["*"]),
     })
 m = {
  "version": 1,
